@@ -144,6 +144,7 @@ WellFormedInstance(s) ==
 (* the recursive division draws a wall position among floor(n/2) odd offsets and a passage among ceil(m/2) even
    offsets: on very small rooms there is nothing to draw and the (random) generator is necessarily constant *)
 GeneratorHasChoice == NR >= 2 /\ NC >= 2 /\ (Max2(NR, NC) >= 4 \/ Min2(NR, NC) >= 3)
+GeneratorHasManyChoices == Min2(NR, NC) >= 3 /\ Max2(NR, NC) >= 4      \* >= 2 wall offsets and >= 2 passages at the first division
 
 (* ---------- objective (C08): tiles cleaned minus the step penalties, fixed point ---------- *)
 CleanCount(g) == Cardinality({ p \in AllCells : Code(g, p) = CLEAN })
